@@ -325,6 +325,9 @@ fn format_type_info_internal(
 
             let access = access.as_ref().map(|token_reference| {
                 format_token_reference(ctx, token_reference, shape + BRACKET_LEN)
+                    .update_trailing_trivia(FormatTriviaType::Append(vec![Token::new(
+                        TokenType::spaces(1),
+                    )]))
             });
 
             let access_shape_increment = access
@@ -371,6 +374,15 @@ fn format_type_info_internal(
                     FormatTriviaType::NoChange,
                     FormatTriviaType::NoChange,
                 ),
+            };
+
+            // The indentation of a multiline array type belongs in front of the access modifier, if there is one
+            let (access, leading_trivia) = match access {
+                Some(access) => (
+                    Some(access.update_leading_trivia(leading_trivia)),
+                    FormatTriviaType::NoChange,
+                ),
+                None => (None, leading_trivia),
             };
 
             TypeInfo::Array {
